@@ -63,6 +63,16 @@ class ShortLinkControl(BitsInterface):
         assert (
             len(bits) >= 36
         ), f"Expected at least 36 bits (including 8-bit CRC), got {len(bits)}"
+        slc: ShortLinkControl = ShortLinkControl._from_bits(bits)
+        # the verdict is about the received bits (checksum bits are in on-air, LSB first, order):
+        # a nulled CRC is still regenerated, but neither it nor dropped payload bits are vouched for
+        slc.crc_ok = bits[28:36] == int2ba(
+            CRC8.calculate(bits[:28]), length=8, endian="little"
+        )
+        return slc
+
+    @staticmethod
+    def _from_bits(bits: bitarray) -> "ShortLinkControl":
         slco: SLCOs = SLCOs.from_bits(bits[:4])
         if slco == SLCOs.NullMessage:
             return ShortLinkControl(slco=slco, crc_8bit=bits[28:36])
